@@ -193,9 +193,13 @@ def jobs(tier):
         comps = c02.compositions(3, [2, 3])
     timesets = [[1.0], [2.5, 1.0], [1.0, 2.5]]
     for k, c in enumerate(comps):
+        n_out = 1 + (k % 2 if not q else 0)
         out.append(('post', 'case_post', dict(
-            units=c, n_samples=2, n_out=1 + (k % 2 if not q else 0),
-            times=timesets[k % 3], sigma_fixed=(k % 3 == 0),
+            units=c, n_samples=2, n_out=n_out,
+            # (two observables x two times: the normal form of the filter
+            # term does not finish within the per-configuration budget)
+            times=timesets[k % 3] if n_out == 1 else timesets[0],
+            sigma_fixed=(k % 3 == 0),
             log_scale=(k % 4 == 1), bare=(len(c) == 1 and k % 2 == 0)),
             {'max_paths': 64}))
     for k, c in enumerate(c02.extra_quick()):
@@ -222,7 +226,9 @@ def jobs(tier):
             for c in ([U('gaussian'), U('pooled')], [U('lognormal_nc', 2)],
                       [U('hetero'), U('gaussian_nc')]):
                 out.append(('post', 'case_post', dict(
-                    units=c, n_samples=n_s, times=[2.5, 1.0], filter=kind,
+                    units=c, n_samples=n_s,
+                    times=[2.5, 1.0] if kind == 'lognormal' else [1.0],
+                    filter=kind,
                     log_scale=kind.startswith('lognormal')),
                     {'max_paths': 64}))
     return out
@@ -234,9 +240,10 @@ BOUNDS = dict(
           'sub-models of total dimension 2, half of the 64 three-unit '
           'compositions, a sixth of the covariate variants; sigma fixed/free '
           'and additive/log-scale noise rotated over the compositions',
-    thorough='compositions of <= 3 sub-models with dimension 2-3, 1-2 '
-             'observables, all five filters on three compositions '
-             '(4 simulated individuals for the mixture)',
+    thorough='all 497 compositions of <= 3 sub-models with dimension 2-3, 1-2 '
+             'observables (2 observables at one time point), all five '
+             'filters on three compositions (KDE and mixture filters at one '
+             'time point; 4 simulated individuals for the mixture)',
     outside='more simulated individuals; the ODE solver (uninterpreted); '
             'filters are vouched for by C12')
 TRUSTED = ['z3', 'canonical stage', 'population filters as reference (C12)',
